@@ -1,5 +1,6 @@
 import Cello.Threads
 import CelloGen.Exn
+import CelloGen.Thr
 import Driver.Common
 /- driver for engine `thr` (C13).  Op file (shared with harness/h_thr.c):
 
@@ -21,7 +22,7 @@ def declared (k : Nat × Nat) : Bool :=
   | (2, 1) | (2, 3) | (2, 5) => true                 -- ProbeC: Cmp Len Assign
   | _ => false
 
-def cfg : Cfg := { consume := CelloGen.Exn.catchConsumes, maxDepth := CelloGen.Exn.maxDepth, scan := declared }
+def cfg : Cfg := { gcFirst := CelloGen.Thr.teardownGcFirst, consume := CelloGen.Exn.catchConsumes, maxDepth := CelloGen.Exn.maxDepth, scan := declared }
 
 def parseErrno : String → Option Errno
   | "0" => some .zero | "EINVAL" => some .einval | "EDEADLK" => some .edeadlk | "EBUSY" => some .ebusy
@@ -47,8 +48,9 @@ def parseEv (l : String) : Option (Ev × String × Bool) :=
       match op, args with
       | "begin", [] => if t = 0 then none else loc .begin_
       | "end", [] => if t = 0 then none else loc .end_
-      | "new", [k] => (lt k 512).bind fun k => loc (.new k false)
-      | "newroot", [k] => (lt k 512).bind fun k => loc (.new k true)
+      | "new", [k] => (lt k 512).bind fun k => loc (.new k false false)
+      | "newroot", [k] => (lt k 512).bind fun k => loc (.new k true false)
+      | "newx", [k] => (lt k 512).bind fun k => loc (.new k false true)
       | "del", [u, k] => match lt u 65, lt k 512 with
         | some u, some k => loc (.del ⟨u, k⟩) | _, _ => none
       | "gc", ks => (ks.mapM (lt · 512)).bind fun ks => loc (.collect ks)
